@@ -525,20 +525,20 @@ class Real:
         return "unknown:" + n
 
     def crypto(self, kind, addr, st, en, key, ctr, inp, swap="0"):
-        """expected LOAD of a keywrap / encrypt statement, recomputed with SPSDK's KeyBlob from the resolved operands"""
+        """expected LOAD of a keywrap / encrypt statement, recomputed with SPSDK's KeyBlob (an interface owned by C13) from the
+        RESOLVED operands, the way SB21Helper calls it: flags in the low bits of `end`, counter bound to the load address"""
         from spsdk.utils.crypto.otfad import KeyBlob
         from spsdk.utils.misc import align_block
-        kb = KeyBlob(start_addr=st, end_addr=en, key=bytes.fromhex(key), counter_iv=bytes.fromhex(ctr))
         if not (0 <= addr <= 0xFFFFFFFF):
             raise ValueError("address")
         if kind == "keywrap":
+            kb = KeyBlob(start_addr=st, end_addr=en, key=bytes.fromhex(key), counter_iv=bytes.fromhex(ctr), key_flags=en & KeyBlob._KEY_FLAG_MASK)
             data = kb.export(kek=inp)
             return "load:%d:0:keywrap[%d]" % (addr, len(data))
+        kb = KeyBlob(start_addr=st, end_addr=en, key=bytes.fromhex(key), counter_iv=bytes.fromhex(ctr))
         data = bytes.fromhex(inp) if inp != "-" else b""
         if bool(en & kb.KEY_FLAG_ADE) and bool(en & kb.KEY_FLAG_VLD):
-            data = kb.encrypt_image(base_address=addr, data=align_block(data, 512), byte_swap=swap == "1")
-        if not (0 <= addr <= 0xFFFFFFFF):
-            raise ValueError("address")
+            data = kb.encrypt_image(base_address=addr, data=align_block(data, 512), byte_swap=swap == "1", counter_value=addr)
         return "load:%d:0:%s" % (addr, hx(data))
 
 
